@@ -93,6 +93,8 @@ class G:
     def cstr_leaf(self, allow_plain):
         r = self.r
         q = r.random()
+        if allow_plain and q < 0.4:
+            return 'nullptr', ['val', 'cnull']           # a plain nullptr operand: accepts exactly the null argument
         if q < 0.6:
             return self.re_leaf()
         op = r.choice(['eq', 'ne'])
@@ -102,6 +104,8 @@ class G:
     def ptr_leaf(self, allow_plain):
         r = self.r
         q = r.random()
+        if allow_plain and q < 0.4:
+            return 'nullptr', ['val', 'pnull']
         if q < 0.6:
             c, t = self.int_m(2, False)
             if t[0] == 'any':
@@ -174,6 +178,13 @@ CORPUS = [
     ('cstr', 'ANY(char const*)', ['any'], []),
     ('ptr_shared', 'trompeloeil::any_of(*trompeloeil::gt(1), trompeloeil::eq(nullptr))',
      ['anyof', '2', 'deref', 'gt', 'i:1', 'eq', 'pnull'], []),
+    # plain nullptr as an operand / as the expected value (seeded change C10-m5)
+    ('ptr_raw', 'trompeloeil::any_of(nullptr, *trompeloeil::eq(3))', ['anyof', '2', 'val', 'pnull', 'deref', 'eq', 'i:3'], []),
+    ('ptr_unique', 'trompeloeil::none_of(nullptr, *trompeloeil::lt(0))', ['noneof', '2', 'val', 'pnull', 'deref', 'lt', 'i:0'], []),
+    ('ptr_shared', 'trompeloeil::all_of(nullptr)', ['allof', '1', 'val', 'pnull'], []),
+    ('cstr', 'trompeloeil::any_of(nullptr, trompeloeil::re("^a"))', ['anyof', '2', 'val', 'cnull', 're', '0'], [('^a', False)]),
+    ('ptr_raw', 'nullptr', ['val', 'pnull'], []),
+    ('cstr', 'nullptr', ['val', 'cnull'], []),
 ]
 
 TYPES = ['int', 'int', 'int', 'long', 'str', 'str', 'cstr', 'ptr_raw', 'ptr_unique', 'ptr_shared', 'S']
